@@ -162,6 +162,9 @@ structure RopeEnv (σ γ : Type) where
   better : γ → γ → Bool
   /-- `Cost(equivalenceTolerance * delta)` -/
   eqCost : γ
+  /-- how the shortcut `i → j` is priced for the acceptance test: `motionCost(states[i], states[j])` in the tree; the
+  repair proposed for F173 (notes/C17-fix-F173.diff) prices it by the pieces it will be densified into -/
+  chord : σ → σ → γ := motion
 
 /-- the `n` states inserted between `a` and `b` -/
 def inters {γ : Type} (E : RopeEnv σ γ) (a b : σ) (n : Nat) : List σ :=
@@ -207,7 +210,7 @@ def ropeInnerG {γ : Type} (E : RopeEnv σ γ) (fixed : Bool) (st : List σ) (i 
           let costs := cumCosts E st
           match costs[j + 1]?, costs[i]? with
           | some cj, some ci =>
-            let shortcut := E.motion si sj
+            let shortcut := E.chord si sj
             let along := E.subtract cj ci
             if E.better (E.subtract along shortcut) E.eqCost then
               if j + 1 = st.length - 1 then .ret st false false else .next
